@@ -7,7 +7,7 @@ export CARGO_NET_OFFLINE=true
 python3 mkchecks.py >/dev/null
 python3 kani/gen_ws.py >/dev/null
 cd .work/kani/ws
-for c in axelar-gateway axelar-gas-service axelar-operators upgrader interchain-token example interchain-token-service; do
+for c in axelar-gateway axelar-gas-service axelar-operators upgrader interchain-token example interchain-token-service axelar-gateway-api axelar-operators-api; do
   cargo kani -p $c -Z stubbing -Z unstable-options --no-memory-safety-checks --only-codegen >/dev/null 2>&1 || echo "setup: pre-build of $c failed (checks will report it)"
 done
 echo "setup done"
